@@ -40,6 +40,7 @@ int main(int argc, char **argv) {
     auto sp = line.find(' ');
     std::string cmd = line.substr(0, sp), src = unhex(sp == std::string::npos ? "-" : line.substr(sp + 1));
     std::string res;
+    alarm(10);   // watchdog: a hang in the real code kills the process (SIGALRM), reported as `fault hang`
     try {
       hexasm::Lexer lexer;
       lexer.loadBuffer(src);
